@@ -11,7 +11,7 @@ EXPLANATION = ("T1 path-sensitive extraction of LdapResultExt::from: on every su
                "controlType, BOOLEAN second child -> criticality = content[0] != 0 then value, OCTET STRING second child -> value with "
                "criticality false, absent -> (false, None); the known-OID table equals the RFC OIDs; T4 success()/non_error()/equal() "
                "are decided completely by evaluating them over the finite partition of result codes induced by the constants they "
-               "compare with. Not decided: equality of arbitrary strings through String::from_utf8 / Vec moves (library semantics).")
+               "compare with; T9 (C11 H8) the frame decoder interpreted exactly on element trees: a well-formed envelope - without, with an empty, with one / two / any controls - is delivered with its operation and with what parse_controls makes of exactly its controls element. Not decided: equality of arbitrary strings through String::from_utf8 / Vec moves (library semantics).")
 TRUSTED = ['String::from_utf8 / Vec move semantics', 'lber TLV parser above the length reader (C07 B1 / B7)']
 UNDECIDED = ['byte-level equality of arbitrary strings (std semantics)']
 ASSUMPTIONS = []
@@ -25,7 +25,17 @@ SHARED = [('C01', ('R3.controls', 'R3.protocol-op'), 'T6.driver-forwards-the-mes
           # across reads anywhere inside the length field - the decoder must see the same length; that is what C07's B2 reader family decides
           # about lber's length reader (form by the first octet, exactly n octets read, their big-endian value, a field that has not
           # arrived completely is Incomplete and never an error or a shorter value, nothing refused for how it is written)
-          ('C07', ('B2.reader',), 'T8.any-legal-length-form-reads-the-same')]      # the one place a response control list is edited before the caller sees it: exactly the paging control may go
+          ('C07', ('B2.reader',), 'T8.any-legal-length-form-reads-the-same'),
+          # "response controls (OID, criticality, value) ... handed to the caller equal the fields the server encoded", over "all control
+          # lists with and without criticality and value" - the empty list is one, and so is no list: the controls the caller is handed
+          # are what the frame decoder makes of the envelope's trailing `controls [0] Controls OPTIONAL` element (RFC 4511 4.1.1), and
+          # the result itself reaches the caller only if the envelope around it is delivered at all.  C11 H8 decides this by exact
+          # interpretation of the frame decoder on element trees (rules/envelope.py): a well-formed LDAPMessage without a controls
+          # element, with one that is empty, with one and two controls and with any control list (for any protocolOp) is delivered
+          # with the operation element it holds and with what `parse_controls` (T3) makes of exactly that controls element - for the
+          # empty element the empty vector is the same thing (T3.empty-list-decodes-to-no-controls) -, and never answered with a
+          # decoding error, which would end the connection instead of handing the result to the caller
+          ('C11', ('H8.well-formed-envelope-is-delivered',), 'T9.envelope-controls-are-the-decoded-controls-element')]      # the one place a response control list is edited before the caller sees it: exactly the paging control may go
 
 RFC4511_RESULT_TAGS = {3: 'refs', 7: 'sasl_creds', 10: 'exop_name', 11: 'exop_val'}
 RFC_CONTROL_OIDS = {
@@ -135,6 +145,22 @@ def check_parse_controls(ctx, f, R='T3'):
     for k in sorted(set(got) | set(RFC_CONTROL_OIDS)):
         ctx.add(R + '.oid-table', k, loc(init['body']), got.get(k) == RFC_CONTROL_OIDS.get(k), 'OID table: %s -> %s, RFCs: %s' % (k, got.get(k), RFC_CONTROL_OIDS.get(k)))
 
+
+
+def check_empty_control_list(ctx, f, R='T3'):
+    """T3.empty-list-decodes-to-no-controls: a controls element that holds no control (`a0 00`) is a well-formed encoding of the empty
+    control list; the control-list decoder interpreted exactly on that literal element (the accessors of the element type inlined)
+    answers the empty vector and nothing else - no panic, no phantom control.  (The frame decoder may therefore skip the call for
+    such an element: C11 H8 / T9 accept either.)"""
+    import envelope
+    P = hirq.Body(f, f.body('ldap3::controls_impl::parse_controls'))
+    I = absx.Interp(f, P, unroll=2, inline=lambda c: c.startswith('lber::structure::') or c.startswith('<lber::structure::'), combinators=True, places=True)
+    I.exact_seqs = True
+    ps = [b for b, d in P.defs.items() if d['kind'] == 'param' and not d['proj']]
+    outs = I.run(env={b: envelope.CT0 for b in ps}) if len(ps) == 1 else []
+    got = sorted({o.kind + ' ' + absx.fmt(o.val)[:40] for o in outs})
+    ctx.add(R + '.empty-list-decodes-to-no-controls', 'a0 00', loc(P.root), len(outs) == 1 and outs[0].kind in ('val', 'ret') and outs[0].val == ('vec', ()),
+            'the control-list decoder applied to a controls element that holds no control does not answer the empty list: %s' % (got or 'not decided'))
 
 
 def check_result_helpers(ctx, f, R='T4', only=None):
@@ -408,6 +434,7 @@ def run(ctx):
     ctx.floor('T2', 'operation result obligations', n_ops, 8)
 
     check_parse_controls(ctx, f, 'T3')
+    check_empty_control_list(ctx, f, 'T3')
     from props import C07
     C07.check_parse_uint(ctx, f, 'T1')      # the result code (and the message ID) are read with this
 
